@@ -45,7 +45,9 @@ PegReasons(r) ==
            inside == RecordInScope(r, gr)
            Tag(w) == IF inside THEN w ELSE "obs:" \o r.e \o ":" \o w
        IN
-       (IF r.exc THEN {"obs:" \o r.e \o ":exception-escaped"} ELSE {}) \cup
+       \* an exception leaving an entry point is no outcome of the documented semantics (a verdict for the string
+       \* entry points of the statement over a healthy stream, an observation for the others)
+       (IF r.exc THEN {Tag("exception-escaped")} ELSE {}) \cup
        (IF r.ok = e.ok THEN {}
         ELSE {Tag(IF e.ok THEN "failure-where-the-semantics-succeeds" ELSE "success-where-the-semantics-fails")})
        \cup (IF ~r.ok /\ ~e.ok /\ r.fatal # e.fatal THEN {Tag("fatal-flag")} ELSE {})
